@@ -16,7 +16,15 @@ def sh(cmd, cwd, timeout=1200):
 
 
 def main():
-    wt, sid, prop, needs = sys.argv[1:5]
+    if len(sys.argv) == 2:
+        # re-check an already collected change against the current /repo tree
+        sid = sys.argv[1]
+        wt = os.path.join(VERIF, "seeded", sid)
+        old = json.load(open(os.path.join(wt, "meta.json")))
+        prop, needs = old["property"], old["needs_to_manifest"]
+    else:
+        wt, sid, prop, needs = sys.argv[1:5]
+        old = None
     patch = os.path.join(wt, "patch.diff")
     demo = os.path.join(wt, "demo.py")
     assert os.path.exists(patch) and os.path.exists(demo), "missing patch.diff/demo.py"
@@ -56,16 +64,20 @@ def main():
         sys.exit(1)
     dst = os.path.join(VERIF, "seeded", sid)
     os.makedirs(dst, exist_ok=True)
-    shutil.copy(patch, os.path.join(dst, "patch.diff"))
-    shutil.copy(demo, os.path.join(dst, "demo.py"))
+    if os.path.abspath(wt) != os.path.abspath(dst):
+        shutil.copy(patch, os.path.join(dst, "patch.diff"))
+        shutil.copy(demo, os.path.join(dst, "demo.py"))
     meta = {
         "property": prop,
         "source": "independent sub-agent given only the property text and a scratch worktree",
         "needs_to_manifest": needs,
         "confirmed_by": "tools/seeded_collect.py in a fresh scratch copy of /repo",
         "what_was_run": log,
-        "caught_by": [],
+        "caught_by": (old or {}).get("caught_by", []),
     }
+    for k in ("note", "rebased"):
+        if old and k in old:
+            meta[k] = old[k]
     with open(os.path.join(dst, "meta.json"), "w") as f:
         json.dump(meta, f, indent=1)
 
